@@ -162,6 +162,10 @@ FROM my_table"#
             }
         }
 
+        // Remove from the back: the indices were taken before any removal, and the
+        // iteration order of a hash set is arbitrary.
+        let mut to_remove = to_remove.into_iter().collect::<Vec<_>>();
+        to_remove.sort_unstable_by(|a, b| b.cmp(a));
         for idx in to_remove {
             results.remove(idx);
         }
